@@ -37,7 +37,10 @@ ExprLang(c) ==
          [i \in DOMAIN es |->
             S("s" \o ToString(i), IF i % 3 = 0 THEN "exist" ELSE "or", <<>>, NoRisk, NoT, <<>>,
               IF i % 3 = 0 THEN Req(<< es[i] >>) ELSE NoX,
-              IF i % 4 = 0 THEN Ext(<< Col(es[i], St("t")), St("u") >>) ELSE Ovr(<< Col(es[i], St("t")) >>))]),
+              \* every fifth step has its attack step INSIDE parentheses: fa.(e.t) is a collect whose right operand is a collect
+              IF i % 4 = 0 THEN Ext(<< Col(es[i], St("t")), St("u") >>)
+              ELSE IF i % 5 = 1 THEN Ovr(<< Col(F("fa"), Col(es[i], St("t"))) >>)
+              ELSE Ovr(<< Col(es[i], St("t")) >>))]),
        Asset("Tx", "Xa", << LetV("vb", es[1]) >>, << Or("t", NoR), Or("u", NoR) >>) >>,
     << AssocMany("Aa", "Xa", "fa", "fb", "Xa") >>) EXCEPT !.version = "1.0.0"]
 TtcLang(c) ==
